@@ -1,4 +1,4 @@
-import Ledger.Proofs.InterpTop
+import Ledger.Proofs.InterpFront
 import Ledger.Proofs.InterpNorm
 
 /-!
@@ -38,12 +38,6 @@ def sameSummary (a b : Option Summary) : Bool :=
 
 /-- The two models agree on program `p` and input `inp`. -/
 def SameResult (p : Script) (inp : Input) : Prop := sameSummary (mSum p inp) (iSum p inp) = true
-
-/-- The machine's compiler accepts the program. -/
-def compiles (p : Script) : Bool :=
-  match typecheck p with
-  | .ok _ => true
-  | .error _ => false
 
 /-- C26 for every program the machine compiles: FALSE (see the counterexamples). -/
 def machine_interp_agree_full : Prop :=
@@ -173,6 +167,22 @@ def wF1 : Script :=
       .setTxMeta "k" (.add (coin 1) (coin 2)),
       .setAccountMeta (.var "u") "tag" (.portion "3/4")] }
 def wF1In : Input := coinInput [("a", 50), ("a2", 8), ("x", 3)] [("u", "a2"), ("m", "COIN 170")]
+/-- A program of F2: `send [COIN 101] from {1/3 from {@a @world}, 10% from max [COIN 40] from @b
+    allowing unbounded overdraft, remaining from @c allowing overdraft up to [COIN 50]}
+    to {25% to @x, remaining to {max [COIN 7] to @y, remaining to @z}, 1/8 to @x}`. -/
+def wF2 : Script :=
+  { vars := [],
+    stmts := [.send (coin 101)
+      (.allot (AllotSrcList.ofList [
+        (.lit "1/3", srcs [acct "a", acct "world"]),
+        (.lit "10%", .maxed (coin 40) (.account (.acct "b") .unbounded)),
+        (.remaining, .account (.acct "c") (.upTo (coin 50)))]))
+      (.allot (AllotDstList.ofList [
+        (.lit "25%", .to (toA "x")),
+        (.remaining, .to (.inorder (.cons (coin 7) (.to (toA "y")) .nil) (.to (toA "z")))),
+        (.lit "1/8", .to (toA "x"))]))] }
+def wF2In : Input := coinInput [("a", 20), ("b", 1), ("c", 30)]
+
 /-- the same program, not funded: both fail -/
 def wF1Poor : Script :=
   { vars := [], stmts := [.send (coin 170) (.src (srcs [.maxed (coin 30) (acct "a"), acct "a2"])) (toA "x")] }
